@@ -3,8 +3,8 @@
    version through the switch tables goextract read from ParseVersion, so the
    statements below are about the constants, tables and regular expression
    that are in version.go on this run. *)
-From Apko Require Import Base.Prelude Base.Regex Spec.VersionSpec Model.Version Proofs.VersionProofs Proofs.ConstraintProofs
-  Proofs.VersionStringProofs
+From Apko Require Import Base.Prelude Base.Regex Spec.VersionSpec Model.Version Model.VersionFilter Proofs.VersionProofs Proofs.ConstraintProofs
+  Proofs.VersionStringProofs Proofs.VersionFilterProofs
   Generated.Regexes Generated.VersionConsts Generated.C03Version Generated.C03Ladders.
 Open Scope Z_scope.
 
@@ -188,6 +188,46 @@ Example c03_constraint_string_example :
     satisfied_by (resolve_constraint "foo~1.3") a = Some false /\
     satisfied_by (resolve_constraint "foo<1.2.3") a = Some false.
 Proof. eexists. repeat split; vm_compute; reflexivity. Qed.
+
+(* the resolver's own operator dispatch (filterPackages, one candidate that is neither disqualified nor pinned): a candidate
+   answers a versioned constraint exactly when its own version, or the version of one of its provides, stands in the spec's
+   relation to the required version - whatever the spelling of equal versions (1.2.3 and 1.2.3-r0, 1.06 and 1.6) *)
+Theorem c03_filter_follows_order : forall row cname pin sv pv ver a provs,
+  In row matcher_table -> parse_version sv = Some pv -> parse_version ver = Some a ->
+  exists va vr, abs a = Some va /\ abs pv = Some vr /\
+    (filter_one {| c_name := cname; c_version := sv; c_dep := snd row; c_pin := pin |} ver provs = true <->
+     spec_sat (vop_of_string (fst row)) va vr = true \/
+     exists prov, In prov provs /\ spec_prov_passes (vop_of_string (fst row)) vr prov).
+Proof. exact filter_one_is_spec. Qed.
+Print Assumptions c03_filter_follows_order.
+
+Theorem c03_filter_own_version : forall row cname pin sv pv ver a,
+  In row matcher_table -> parse_version sv = Some pv -> parse_version ver = Some a ->
+  exists va vr, abs a = Some va /\ abs pv = Some vr /\
+    filter_one {| c_name := cname; c_version := sv; c_dep := snd row; c_pin := pin |} ver [] =
+    spec_sat (vop_of_string (fst row)) va vr.
+Proof. exact filter_one_own. Qed.
+Print Assumptions c03_filter_own_version.
+
+(* a bare name lets every candidate through; an unparsable required version lets nothing through; a candidate whose own
+   version does not parse never answers a versioned constraint *)
+Theorem c03_filter_edges : forall cname pin ver provs,
+  filter_one {| c_name := cname; c_version := ""; c_dep := dep_versionAny; c_pin := pin |} ver provs = true /\
+  (forall row sv, In row matcher_table -> parse_version sv = None ->
+     filter_one {| c_name := cname; c_version := sv; c_dep := snd row; c_pin := pin |} ver provs = false) /\
+  (forall row sv, In row matcher_table -> parse_version ver = None ->
+     filter_one {| c_name := cname; c_version := sv; c_dep := snd row; c_pin := pin |} ver provs = false).
+Proof. exact filter_one_edges. Qed.
+Print Assumptions c03_filter_edges.
+
+Example c03_filter_example :
+  filter_one (resolve_constraint "a=1.2.3") "1.2.3-r0" [] = true /\
+  filter_one (resolve_constraint "a=1.6") "1.06" [] = true /\
+  filter_one (resolve_constraint "a=2.0_rc0") "2.0_rc" [] = true /\
+  filter_one (resolve_constraint "a>=2") "1.0" ["a=2.5.0"; "b"] = true /\
+  filter_one (resolve_constraint "a>=2") "1.0" ["a=1.5"; "b"] = false /\
+  filter_one (resolve_constraint "a<1_hg") "1_git" [] = true.
+Proof. repeat split; vm_compute; reflexivity. Qed.
 
 (* non-vacuity: real version strings parse, decode and compare *)
 Example c03_example :
